@@ -222,6 +222,11 @@ class C01(RunSpec):
             p.update({"leaf": _cycle(CMA_ENGINES, idx // 16), "fams": ["face", "linear", "face"], "levels": [2, 2, 3], "gsc": "melimit", "free_lscs": True,
                       "root": _cycle(["sea", "de", "shade", "lhs"], idx // 16), "allow_cutoff": False})
             p.pop("gscs", None)
+        if idx % 16 == 2:
+            # local searches in a box narrower than the step of scipy's numerical derivative
+            p.update({"root": _cycle(["sea", "de", "lhs"], idx // 16), "leaf": _cycle(["local", "local_maxiter"], idx // 16), "n_levels": 2, "fams": ["linear", "face", "sphere"], "box": "nano",
+                      "sprout": "simple", "gsc": "melimit", "free_lscs": True, "allow_cutoff": False, "dim": (3, 5), "level_limit": 6})
+            p.pop("gscs", None)
         if idx % 16 == 1:
             # an objective with infinite values (a region in which it is infinitely good, or a penalty of +inf) and a local search sprouted
             # from a parent whose best point has such a value: whatever scipy's arithmetic does with it, the objective is only called in the box
@@ -282,6 +287,7 @@ class C01(RunSpec):
         fl += [("C01.within_1e-12_of_a_face_with_result_cache.CMADeme metaepoch", 1, "CMA-ES evaluated a point within 1e-12 of a face of a full-precision box with result caching on"),
                ("C01.within_1e-12_of_a_face_with_result_cache.LocalDeme metaepoch", 1, "a local search evaluated a point within 1e-12 of a face of a full-precision box with result caching on")]
         fl += [("C01.ga_style_deme_evaluations_with_a_coordinate_exactly_on_a_face_of_a_decimal_box", 50, "evaluations of a GA-style deme with a coordinate exactly on a face of a box with decimal bounds (5.12, 0.9, ...)")]
+        fl += [("C01.local_search_evaluations_in_a_box_narrower_than_a_derivative_step", 30, "evaluations of local searches in boxes narrower than 1.5e-8")]
         fl += [("C01.local_deme_sprouted_from_a_seed_with_infinite_fitness", 2, "local search sprouted from a seed whose objective value is infinite")]
         fl += [("local_method_name_in_lower_case", 2, "local level whose method name is given in lower case")]
         fl += [("retargeted_configurations_completed", 2, "trees built from a deep-copied, re-targeted configuration"), ("minimize_after_same_callable_on_another_box", 1, "minimize() of a callable that was minimised over another box before")]
